@@ -24,6 +24,7 @@ from .values import (
 )
 from .errors import (
     JSError,
+    JSRangeError,
     JSSyntaxError,
     JSTypeError,
     MemoryLimitError,
@@ -707,51 +708,80 @@ class Context:
         json_obj = JSObject()
         ctx = self  # Reference for closures
 
+        def reject_constant(name):
+            # json.loads accepts NaN, Infinity and -Infinity; JSON does not
+            raise ValueError(f"Unexpected token {name}")
+
         def parse_fn(*args):
             text = to_string(args[0]) if args else ""
             try:
-                py_value = json.loads(text)
+                py_value = json.loads(text, parse_constant=reject_constant)
                 return ctx._to_js(py_value)
-            except json.JSONDecodeError as e:
+            except RecursionError:
+                raise JSRangeError("JSON.parse: structure is nested too deeply")
+            except ValueError as e:  # includes json.JSONDecodeError
                 raise JSSyntaxError(f"JSON.parse: {e}")
+
+        # Nesting accepted by JSON.stringify; each level uses a host stack frame
+        max_depth = 200
 
         def stringify_fn(*args):
             value = args[0] if args else UNDEFINED
+            # Containers on the path from the root to the value being written
+            path = []
 
-            # Convert JS value to Python for json.dumps, handling undefined specially
-            def to_json_value(v):
-                if v is UNDEFINED:
-                    return None  # Will be filtered out for object properties
+            def enter(container):
+                for ancestor in path:
+                    if ancestor is container:
+                        raise JSTypeError("Converting circular structure to JSON")
+                if len(path) >= max_depth:
+                    raise JSRangeError("JSON.stringify: structure is nested too deeply")
+                path.append(container)
+
+            def serialize(v):
+                """Return the JSON text of v, or None if v has no JSON form
+                (undefined and functions)."""
                 if v is NULL:
-                    return None
+                    return "null"
                 if isinstance(v, bool):
-                    return v
+                    return "true" if v else "false"
                 if isinstance(v, (int, float)):
-                    return v
+                    if isinstance(v, float) and (math.isnan(v) or math.isinf(v)):
+                        return "null"
+                    return to_string(v)
                 if isinstance(v, str):
-                    return v
+                    return json.dumps(v, ensure_ascii=False)
                 if isinstance(v, JSArray):
-                    # For arrays, undefined becomes null
-                    return [
-                        None if elem is UNDEFINED else to_json_value(elem)
-                        for elem in v._elements
-                    ]
-                if isinstance(v, JSObject):
-                    # For objects, skip undefined values
-                    result = {}
+                    enter(v)
+                    try:
+                        parts = []
+                        for elem in v._elements:
+                            text = serialize(elem)
+                            # undefined and functions become null inside arrays
+                            parts.append("null" if text is None else text)
+                    finally:
+                        path.pop()
+                    return "[" + ",".join(parts) + "]"
+                if (
+                    v is UNDEFINED
+                    or isinstance(v, (JSFunction, JSCallableObject))
+                    or not isinstance(v, JSObject)
+                ):
+                    return None
+                enter(v)
+                try:
+                    parts = []
                     for k, val in v._properties.items():
-                        if val is not UNDEFINED:
-                            result[k] = to_json_value(val)
-                    return result
-                return None
+                        text = serialize(val)
+                        # properties without a JSON form are left out
+                        if text is not None:
+                            parts.append(json.dumps(k, ensure_ascii=False) + ":" + text)
+                finally:
+                    path.pop()
+                return "{" + ",".join(parts) + "}"
 
-            py_value = to_json_value(value)
-            try:
-                return json.dumps(py_value, separators=(",", ":"))
-            except (TypeError, ValueError) as e:
-                from .errors import JSTypeError
-
-                raise JSTypeError(f"JSON.stringify: {e}")
+            result = serialize(value)
+            return UNDEFINED if result is None else result
 
         json_obj.set("parse", parse_fn)
         json_obj.set("stringify", stringify_fn)
